@@ -4,8 +4,9 @@
 // writes NeoFS/Generated/DeployFacts.lean: the index maps of the Notary bootstrap (which signature domains the
 // leader reads, which committee key it verifies each with, where it stores the signature, in which order the
 // collected signatures are appended, under which domain a signer publishes), the leader's index, the number of
-// remote signatures it waits for, the transaction monitor consulted before the designation is sent, and the NNS
-// names of the deployment stages. The Lean model NeoFS/Model/NotaryBootstrap.lean takes the maps from here
+// remote signatures it waits for, the transaction monitor consulted before the designation is sent, the NNS
+// names of the deployment stages, and WHICH node role each pre-check (checkCommitteeRoles), each role stage's loop,
+// each designation and initVoteForAlphabet names. The Lean model NeoFS/Model/NotaryBootstrap.lean takes the maps from here
 // (`current`), so a change of a loop bound or of an index breaks the corollaries about the code under test.
 //
 // The extractor recognises a fixed family of shapes (`for i := A; i < len(prm.committee)[±c]; i++`,
@@ -46,6 +47,7 @@ type dfacts struct {
 	leaderIndex                       int
 	guardMonitor                      string
 	stages                            []string
+	roles                             roleFacts
 	loopText                          string
 }
 
@@ -347,6 +349,206 @@ func leaderFacts(fset *token.FileSet, fd *ast.FuncDecl, out *dfacts) error {
 	return nil
 }
 
+// roleFacts: which node role each pre-check, stage loop and designation of the role stages names.
+type roleFacts struct {
+	precheck                   []string // roles queried by checkCommitteeRoles, in the order of its results
+	guardNotary, guardAlphabet int      // position (among these results) of the flag that lets Deploy skip the stage
+	loopNotary, loopAlphabet   string   // role the stage's own loop checks before it returns
+	desNotary, desAlphabet     string   // role the stage designates
+	voteNeeds                  string   // role whose members initVoteForAlphabet requires
+}
+
+// roleArg: `noderoles.X` → "X"
+func roleArg(e ast.Expr) (string, bool) {
+	s, ok := e.(*ast.SelectorExpr)
+	if !ok {
+		return "", false
+	}
+	if id, ok := s.X.(*ast.Ident); !ok || id.Name != "noderoles" {
+		return "", false
+	}
+	return s.Sel.Name, true
+}
+
+// callsNamed collects the calls of a function or method with the given name (prefix match when the name ends in *).
+func callsNamed(n ast.Node, name string) []*ast.CallExpr {
+	var res []*ast.CallExpr
+	match := func(s string) bool {
+		if strings.HasSuffix(name, "*") {
+			return strings.HasPrefix(s, name[:len(name)-1])
+		}
+		return s == name
+	}
+	ast.Inspect(n, func(x ast.Node) bool {
+		if c, ok := x.(*ast.CallExpr); ok {
+			switch f := c.Fun.(type) {
+			case *ast.Ident:
+				if match(f.Name) {
+					res = append(res, c)
+				}
+			case *ast.SelectorExpr:
+				if match(f.Sel.Name) {
+					res = append(res, c)
+				}
+			}
+		}
+		return true
+	})
+	return res
+}
+
+// oneRole: all calls of `name` inside n name the same role constant as their first argument
+func oneRole(n ast.Node, name, where string) (string, error) {
+	cs := callsNamed(n, name)
+	if len(cs) == 0 {
+		return "", fmt.Errorf("%s: no call of %s", where, name)
+	}
+	role := ""
+	for _, c := range cs {
+		if len(c.Args) == 0 {
+			return "", fmt.Errorf("%s: %s without arguments", where, name)
+		}
+		r, ok := roleArg(c.Args[0])
+		if !ok {
+			return "", fmt.Errorf("%s: first argument of %s is not a noderoles constant", where, name)
+		}
+		if role != "" && role != r {
+			return "", fmt.Errorf("%s: %s is called with different roles (%s, %s)", where, name, role, r)
+		}
+		role = r
+	}
+	return role, nil
+}
+
+func extractRoleFacts(dep, notary, alphabet *ast.File, out *roleFacts) error {
+	// checkCommitteeRoles: `x, err := checkRole(noderoles.R, …)` … `return a, b, nil`
+	cf := findFunc(dep, "checkCommitteeRoles")
+	if cf == nil {
+		return fmt.Errorf("checkCommitteeRoles not found")
+	}
+	byVar := map[string]string{}
+	var results []string
+	var ferr error
+	ast.Inspect(cf.Body, func(x ast.Node) bool {
+		switch st := x.(type) {
+		case *ast.AssignStmt:
+			if len(st.Lhs) == 2 && len(st.Rhs) == 1 {
+				if c, ok := st.Rhs[0].(*ast.CallExpr); ok {
+					if id, ok := c.Fun.(*ast.Ident); ok && id.Name == "checkRole" && len(c.Args) > 0 {
+						r, ok := roleArg(c.Args[0])
+						v, ok2 := st.Lhs[0].(*ast.Ident)
+						if !ok || !ok2 {
+							ferr = fmt.Errorf("checkCommitteeRoles: unsupported checkRole call")
+							return false
+						}
+						byVar[v.Name] = r
+					}
+				}
+			}
+		case *ast.ReturnStmt:
+			if len(st.Results) == 3 {
+				if id, ok := st.Results[2].(*ast.Ident); ok && id.Name == "nil" {
+					results = nil
+					for _, e := range st.Results[:2] {
+						v, ok := e.(*ast.Ident)
+						if !ok {
+							ferr = fmt.Errorf("checkCommitteeRoles: result is not a variable")
+							return false
+						}
+						results = append(results, v.Name)
+					}
+				}
+			}
+		}
+		return true
+	})
+	if ferr != nil {
+		return ferr
+	}
+	if len(results) != 2 {
+		return fmt.Errorf("checkCommitteeRoles: successful `return a, b, nil` not found")
+	}
+	for _, v := range results {
+		r, ok := byVar[v]
+		if !ok {
+			return fmt.Errorf("checkCommitteeRoles: result %s does not come from checkRole", v)
+		}
+		out.precheck = append(out.precheck, r)
+	}
+	// Deploy: `a, b, err := checkCommitteeRoles(…)`, `if !a { … enableNotary(…) }`, `if !b { … designateNeoFSAlphabet(…) }`
+	df := findFunc(dep, "Deploy")
+	if df == nil {
+		return fmt.Errorf("Deploy not found")
+	}
+	pos := map[string]int{}
+	ast.Inspect(df.Body, func(x ast.Node) bool {
+		if as, ok := x.(*ast.AssignStmt); ok && len(as.Rhs) == 1 && len(as.Lhs) == 3 {
+			if c, ok := as.Rhs[0].(*ast.CallExpr); ok {
+				if id, ok := c.Fun.(*ast.Ident); ok && id.Name == "checkCommitteeRoles" {
+					for i, l := range as.Lhs[:2] {
+						if v, ok := l.(*ast.Ident); ok {
+							pos[v.Name] = i
+						}
+					}
+				}
+			}
+		}
+		return true
+	})
+	if len(pos) != 2 {
+		return fmt.Errorf("Deploy: `a, b, err := checkCommitteeRoles(…)` not found")
+	}
+	guard := func(stage string) (int, error) {
+		g := -1
+		ast.Inspect(df.Body, func(x ast.Node) bool {
+			if s, ok := x.(*ast.IfStmt); ok && len(callsNamed(s.Body, stage)) > 0 {
+				if u, ok := s.Cond.(*ast.UnaryExpr); ok && u.Op == token.NOT {
+					if v, ok := u.X.(*ast.Ident); ok {
+						if p, ok := pos[v.Name]; ok {
+							g = p
+						}
+					}
+				}
+			}
+			return true
+		})
+		if g < 0 {
+			return 0, fmt.Errorf("Deploy: `if !<flag of checkCommitteeRoles> { … %s(…) }` not found", stage)
+		}
+		return g, nil
+	}
+	var err error
+	if out.guardNotary, err = guard("enableNotary"); err != nil {
+		return err
+	}
+	if out.guardAlphabet, err = guard("designateNeoFSAlphabet"); err != nil {
+		return err
+	}
+	// the stages' own loops and designations
+	en := findFunc(notary, "enableNotary")
+	da := findFunc(alphabet, "designateNeoFSAlphabet")
+	iv := findFunc(alphabet, "initVoteForAlphabet")
+	if en == nil || da == nil || iv == nil {
+		return fmt.Errorf("enableNotary / designateNeoFSAlphabet / initVoteForAlphabet not found")
+	}
+	if out.loopNotary, err = oneRole(en.Body, "checkRole", "enableNotary"); err != nil {
+		return err
+	}
+	if out.loopAlphabet, err = oneRole(da.Body, "checkRole", "designateNeoFSAlphabet"); err != nil {
+		return err
+	}
+	if out.desNotary, err = oneRole(notary, "DesignateAsRole*", "deploy/notary.go"); err != nil {
+		return err
+	}
+	if out.desAlphabet, err = oneRole(da.Body, "DesignateAsRole*", "designateNeoFSAlphabet"); err != nil {
+		return err
+	}
+	if out.voteNeeds, err = oneRole(iv.Body, "GetDesignatedByRole", "initVoteForAlphabet"); err != nil {
+		return err
+	}
+	return nil
+}
+
 func deployFacts(repo, outPath string) error {
 	fset := token.NewFileSet()
 	parse := func(name string) (*ast.File, error) {
@@ -453,6 +655,13 @@ func deployFacts(repo, outPath string) error {
 	if len(out.stages) == 0 {
 		return fmt.Errorf("Deploy: no `syncPrm.domainName = <const>` stages found")
 	}
+	alphaf, err := parse("alphabet.go")
+	if err != nil {
+		return err
+	}
+	if err := extractRoleFacts(dep, notary, alphaf, &out.roles); err != nil {
+		return err
+	}
 	var b strings.Builder
 	b.WriteString("/-! GENERATED by /verif/extract (deployfacts) from deploy/notary.go, deploy/deploy.go, deploy/nns.go of the\nrepository under test. Do not edit. Leader loop as found: `" + out.loopText + "` -/\nnamespace NeoFS.Generated.DeployFacts\n\n")
 	unused := func(t string) string {
@@ -477,6 +686,15 @@ func deployFacts(repo, outPath string) error {
 		parts[i] = leanStr(s)
 	}
 	fmt.Fprintf(&b, "/-- NNS names (in the `neofs` zone) of the contract stages of Deploy, in order (Alphabet contracts follow) -/\ndef systemDomains : List String := [%s]\n", strings.Join(parts, ", "))
+	rp := make([]string, len(out.roles.precheck))
+	for i, r := range out.roles.precheck {
+		rp[i] = leanStr(r)
+	}
+	fmt.Fprintf(&b, "/-- node roles queried by checkCommitteeRoles, in the order of its results -/\ndef precheckRoles : List String := [%s]\n", strings.Join(rp, ", "))
+	fmt.Fprintf(&b, "/-- Deploy skips enableNotary / designateNeoFSAlphabet when the result of checkCommitteeRoles at this position is set -/\ndef guardOfEnableNotary : Nat := %d\ndef guardOfDesignateAlphabet : Nat := %d\n", out.roles.guardNotary, out.roles.guardAlphabet)
+	fmt.Fprintf(&b, "/-- role the stage's own loop checks before it returns -/\ndef loopRoleOfEnableNotary : String := %s\ndef loopRoleOfDesignateAlphabet : String := %s\n", leanStr(out.roles.loopNotary), leanStr(out.roles.loopAlphabet))
+	fmt.Fprintf(&b, "/-- role the stage designates -/\ndef roleDesignatedByEnableNotary : String := %s\ndef roleDesignatedByDesignateAlphabet : String := %s\n", leanStr(out.roles.desNotary), leanStr(out.roles.desAlphabet))
+	fmt.Fprintf(&b, "/-- role whose members initVoteForAlphabet requires (it fails when there are none) -/\ndef roleNeededByVote : String := %s\n", leanStr(out.roles.voteNeeds))
 	b.WriteString("\nend NeoFS.Generated.DeployFacts\n")
 	old, _ := os.ReadFile(outPath)
 	if string(old) == b.String() {
